@@ -150,7 +150,10 @@ func (e *Opener) ShouldOpen(_ context.Context, now time.Time) bool {
 		// not enough requests. Will not open circuit
 		return false
 	}
-	return int64(e.errPercentage(now)*100) >= e.errorPercentage.Get()
+	// Compare with integers: float64(errors)/float64(attempts)*100 rounds down for ratios that are not exactly
+	// representable (29 errors in 100 attempts is 28.999999999999996), which misses the threshold by one.
+	errCount := e.errorsCount.RollingSumAt(now)
+	return errCount*100 >= e.errorPercentage.Get()*attemptCount
 }
 
 func (e *Opener) errPercentage(now time.Time) float64 {
